@@ -246,6 +246,7 @@ def work_formats(chunk):
     p = core.Part()
     for widths, full in chunk:
         cur = [None]
+        start = len(p.violations)
         try:
             with core.watchdog(HANG_S):
                 check_format(by, p, widths, full, cur)
@@ -253,6 +254,7 @@ def work_formats(chunk):
             p.violation("pack-unpack|hangs", "fmt=%r fields=%r" % (str(fmtstr(widths)), cur[0]),
                         "a packify/unpackify/packifyInto call did not return within %ds of starting this format" % HANG_S,
                         dict(fmt=fmtstr(widths), fields=cur[0]))
+        tag_job(p, ("formats", (widths, full)), start)
     return p
 
 
@@ -268,7 +270,8 @@ def work_scalars(job):
     except core.Watchdog:
         last = "%s%r %r" % LAST[0] if LAST[0] else None
         p.violation("%s|hangs" % job[0], "after %s" % (last,), "a %s-family call did not return within %ds (job %r, last call started: %s)"
-                    % (job[0], HANG_S, job, last), dict(job=list(job), last_call=last))
+                    % (job[0], HANG_S, job, last), dict(last_call=last))
+    tag_job(p, ("scalars", job))
     return p
 
 
@@ -325,7 +328,7 @@ def scalars(by, p, job):
                 if not t and lo != 0:
                     continue
                 p.evaluations += 1
-                p.nontrivial(("unbytify", t))
+                p.nontrivial(("unbytify", t[:2]))      # 3-byte strings (thorough) are keyed by their first two bytes: memory bound
                 b = bytearray(t)
                 for rev in (False, True):
                     val = int.from_bytes(bytes(t), "little" if rev else "big")
@@ -437,7 +440,37 @@ def scalars(by, p, job):
     return p
 
 
+def tag_job(p, job, start=0):
+    """Put the shard identity into the replay record of every violation found from index `start` on."""
+    for v in p.violations[start:]:
+        if isinstance(v[3], dict):
+            v[3].setdefault("job", repr(job))
+
+
+def replay(path, runner, pid):
+    """./vcheck C40 --replay <file>: re-run the shard that produced the stored violation; exit 1 if the same key fails again."""
+    import json
+    rec = json.load(open(path))
+    if not isinstance(rec.get("replay"), dict) or "job" not in rec["replay"]:
+        print("replay record carries no shard identity; run the check again to regenerate it")
+        return 2
+    job = eval(rec["replay"]["job"], {"__builtins__": {}, "inf": float("inf"), "nan": float("nan")})
+    p = runner(job)
+    hit = False
+    for g, ex, what, rep in p.violations:
+        same = "%s|%s" % (g, ex) == rec["key"]
+        hit = hit or same
+        print("%s %s|%s\n  %s" % ("REPRODUCED" if same else "other violation in the same shard:", g, ex, what))
+    if not hit:
+        print("not reproduced: %s" % rec["key"])
+    print("REPLAY property=%s reproduced=%s shard_evaluations=%d" % (pid, hit, p.evaluations))
+    return 1 if hit else 0
+
+
 def run():
+    import os
+    if os.environ.get("VERIF_REPLAY"):
+        return replay(os.environ["VERIF_REPLAY"], (lambda job: work_formats([job[1]]) if job[0] == "formats" else work_scalars(job[1])), "C40")
     # reference self-check on the docstring example
     if ref_pack((1, 3, 2, 2), (True, 4, 0, 3)) != bytearray([0xC3]) or ref_unpack((1, 3, 2, 2), [0xC3]) != [1, 4, 0, 3] \
             or ref_unpack((3,), [0xBF]) != [5, 31] or len(compositions(6)) != 32:
